@@ -103,13 +103,13 @@ func startCase() {
 var stackBuf = make([]byte, 1<<16)
 
 // hangs counts deadline expiries in this process.  A correct Pipe never produces one; once a broken one
-// has produced a few, the remaining cases use a short deadline so that the run still finishes and
+// has produced one (after the full 30 s watchdog), the remaining cases use a short deadline so that the run still finishes and
 // reports them (the verdict of such a case is HANG either way).
 var hangs int
 
 func deadline(d time.Duration) time.Duration {
-	if hangs >= 3 {
-		return 100 * time.Millisecond
+	if hangs >= 1 {
+		return 200 * time.Millisecond
 	}
 	return d
 }
